@@ -158,7 +158,35 @@ def gen_scenario(rng, idx, thorough=False):
                 if kind == "delay":
                     f["seconds"] = round(rng.uniform(0.05, 1.5), 3)
                 spec["faults"].append(f)
+    add_handout_failures(spec)
     return spec
+
+
+def add_handout_failures(spec):
+    """exceptions raised in the MIDDLE of handing records to the application (the application catches them
+    and keeps polling / committing): key / value deserializers that raise on chosen records (once per member
+    incarnation, or always) and Fetch responses in which one batch arrives with a wrong CRC (once).  Drawn from
+    a stream of its own so that the rest of the scenario is what it was without them."""
+    import random
+    rx = random.Random(spec["seed"] ^ 0x00C0FFEE)
+    n = spec["producer"]["n"]
+    for m in spec["members"]:
+        m["poison"] = None
+    spec["corrupt"] = []
+    if rx.random() < 0.55:
+        for m in spec["members"]:
+            if rx.random() < 0.6:
+                pz = {"values": {}, "keys": {}}
+                for _ in range(rx.randint(1, 4)):
+                    which = "values" if rx.random() < 0.7 else "keys"
+                    i = rx.randrange(n)
+                    pz[which][("r%d" if which == "values" else "k%d") % i] = "always" if rx.random() < 0.25 else "once"
+                m["poison"] = pz
+    if rx.random() < 0.6:
+        cids = [m["cid"] for m in spec["members"]]
+        for _ in range(rx.randint(2, 6)):
+            spec["corrupt"].append({"client": rx.choice(cids), "nth": rx.randint(0, 15),
+                                    "which": rx.choice(["last", "last", "second", "first"])})
 
 
 # ------------------------------------------------------------------------------------------ running
@@ -221,8 +249,21 @@ async def member_task(env, cluster, rec, spec, ms, boot, state):
     await asyncio.sleep(ms["start"])
     rec.order.append(cid)
     rec.delivered[cid] = 0
+    dkw = {}
+    pz = ms.get("poison")
+    if pz:
+        def make(table, seen):
+            def deser(b):
+                k = b.decode("latin-1") if b is not None else None
+                how = table.get(k)
+                if how == "always" or (how == "once" and k not in seen):
+                    seen.add(k)
+                    raise ValueError(f"deserializer refuses {k}")
+                return b
+            return deser
+        dkw = {"key_deserializer": make(pz["keys"], set()), "value_deserializer": make(pz["values"], set())}
     c = env.aiokafka.AIOKafkaConsumer(
-        bootstrap_servers=boot, client_id=cid, group_id=GROUP,
+        bootstrap_servers=boot, client_id=cid, group_id=GROUP, **dkw,
         enable_auto_commit=ms["auto_commit"], auto_commit_interval_ms=ms["interval_ms"],
         auto_offset_reset="earliest", partition_assignment_strategy=(env.assignors[spec["assignor"]],),
         session_timeout_ms=5000, rebalance_timeout_ms=5000, heartbeat_interval_ms=ms["heartbeat_ms"],
@@ -285,8 +326,10 @@ async def member_task(env, cluster, rec, spec, ms, boot, state):
                     await asyncio.sleep(0.02)
         except asyncio.CancelledError:
             raise
-        except E.KafkaError as ex:
-            rec.notes.append(f"{cid}: get raised {type(ex).__name__}")
+        except Exception as ex:  # noqa: BLE001  the application survives a failed hand-out and polls again
+            rec.h("raised", cid, exc=type(ex).__name__, call=mode)
+            if not isinstance(ex, (E.KafkaError, ValueError)):
+                raise
             await asyncio.sleep(0.05)
         if got:
             for msg in got:
@@ -358,7 +401,7 @@ async def producer_task(env, cluster, spec, boot, rngp):
                     if i >= n:
                         break
                     futs.append(await asyncio.wait_for(
-                        p.send(topic, b"r%d" % i, partition=part, timestamp_ms=now_ms()), 6))
+                        p.send(topic, b"r%d" % i, key=b"k%d" % i, partition=part, timestamp_ms=now_ms()), 6))
                     i += 1
                 if futs:
                     await asyncio.wait(futs, timeout=6)
@@ -421,6 +464,49 @@ async def scenario_main(env, cluster, rec, spec):
                 raise r
 
 
+def install_corruption(cluster, wanted):
+    """local hook (this cluster object only): in the nth Fetch response WITH data sent to a client, one batch of
+    one partition arrives with a wrong CRC-32C — once; the log itself stays intact, a refetch is clean"""
+    if not wanted:
+        return
+    orig = cluster.reply
+    seen = {}
+
+    def spans(data):
+        out, pos = [], 0
+        while pos + 12 <= len(data):
+            ln = int.from_bytes(data[pos + 8:pos + 12], "big")
+            if ln <= 0 or pos + 12 + ln > len(data):
+                break
+            out.append(pos)
+            pos += 12 + ln
+        return out
+
+    def reply(rq, **fields):
+        if rq.api_key == 1 and "topics" in fields and any(w["client"] == rq.client for w in wanted):
+            rows = [(t, i, row) for t, rws in fields["topics"] for i, row in enumerate(rws) if row[-1]]
+            if rows:
+                k = seen.get(rq.client, 0)
+                seen[rq.client] = k + 1
+                for w in wanted:
+                    if w["client"] == rq.client and w["nth"] == k:
+                        t, i, row = max(rows, key=lambda x: len(spans(x[2][-1])))
+                        sp = spans(row[-1])
+                        if not sp:
+                            continue
+                        j = {"first": 0, "second": min(1, len(sp) - 1), "last": len(sp) - 1}[w["which"]]
+                        data = bytearray(row[-1])
+                        data[sp[j] + 17] ^= 0xFF          # first byte of the v2 CRC field
+                        new = tuple(row[:-1]) + (bytes(data),)
+                        fields["topics"] = [(tt, [new if (tt == t and ii == i) else r for ii, r in enumerate(rws)])
+                                            for tt, rws in fields["topics"]]
+                        cluster.trace.append({"ev": "h", "vt": int(cluster.now() * 1000 + 0.5), "op": "corrupt",
+                                              "m": rq.client, "tp": (t, row[0]), "batch": j, "of": len(sp)})
+        return orig(rq, **fields)
+
+    cluster.reply = reply
+
+
 def run_scenario(env, spec):
     sim = env.sim
     cluster = sim.SimCluster(nodes=spec["nodes"], topics=dict(spec["topics"]), seed=spec["seed"],
@@ -429,6 +515,7 @@ def run_scenario(env, spec):
         kw = {k: f[k] for k in ("api", "client", "nth", "count", "code", "seconds") if k in f and f[k] is not None}
         cluster.faults.add(sim.Fault(f["kind"], **kw))
     rec = Recorder(cluster)
+    install_corruption(cluster, spec.get("corrupt") or [])
     outcome = "done"
     try:
         sim.run(scenario_main(env, cluster, rec, spec), cluster, max_vt=spec["duration"] + 90.0)
@@ -841,6 +928,11 @@ def _stats(spec, run, toks):
         "env_steps": sum(1 for e in trace if e["ev"] == "env"),
         "txn_producer": bool(spec["producer"]["txn"]),
         "outcome": run["outcome"],
+        "handout_exceptions": sum(1 for e in trace if e["ev"] == "h" and e["op"] == "raised"),
+        "handout_exceptions_deserializer": sum(1 for e in trace if e["ev"] == "h" and e["op"] == "raised" and e.get("exc") == "ValueError"),
+        "handout_exceptions_crc": sum(1 for e in trace if e["ev"] == "h" and e["op"] == "raised" and e.get("exc") == "CorruptRecordException"),
+        "corrupted_batches_served": sum(1 for e in trace if e["ev"] == "h" and e["op"] == "corrupt"),
+        "members_with_raising_deserializer": sum(1 for m in spec["members"] if m.get("poison")),
         "starts_from_committed_offset": sum(1 for t in toks if t.startswith("offer:") and t.endswith(":c")),
         "starts_from_reset": sum(1 for t in toks if t.startswith("offer:") and t.endswith(":r")),
         "fetch_replies_with_data": sum(1 for t in toks if t.startswith("fR:")),
